@@ -12,6 +12,7 @@
   entry (`hasDerivAtM_iff`).
 -/
 import QSP.Proofs.Jacobian
+import QSP.Proofs.JacCol
 open Matrix Complex
 namespace QSP.C12b
 open QSP
@@ -163,6 +164,14 @@ theorem hasDerivAt_resp_layout_im_pairs (θ : ℝ) (hθ : 0 ≤ Real.sin θ) (pa
     HasDerivAt (fun t => (respDef .Wx .z (layout (par : ℤ) (red.set j t)) (Real.cos θ)).im)
       ((brG .x (jacDPairs θ par red.length ((layout (par : ℤ) red).map prC) j)).im)
       (red.getD j 0) := QSP.hasDerivAt_resp_layout_im_pairs θ hθ par red j hj
+
+/-- `jacF` and `jacCol` (what the all-lengths sweep of the check asks the driver for: the value
+    list and single columns) are exactly the corresponding parts of `jacSpec` -/
+theorem jacSpec_parts (par bits : Nat) (red f : List Rat) (cols : List (List Rat))
+    (h : jacSpec par bits red = .ok (f, cols)) :
+    jacF par bits red = .ok f ∧
+      ∀ j, j < red.length → jacCol par bits red j = .ok (cols.getD j []) :=
+  QSP.jacSpec_parts par bits red f cols h
 
 /-! ### non-vacuity -/
 
